@@ -31,8 +31,8 @@ PARTIAL = {
 }
 
 PARTIAL["C04"] = "proved: for all nine schemes, every byte string reachable from what _Enc returns (the index) and from what _Trap returns (the token) is the output of a PRF/PRP/SKE under a secret (key-derived) key, a hash of such an output, an XOR mask with one, random bytes or a public value -- provenance contracts decided by the labelled ownership pass over the real AST (SSE-2 index values may be identifiers, as the property allows; key material itself never flows into index or token); AESxCBC.Encrypt's output is iv || CBC(pkcs7(m)) with a fresh 16-byte IV (C14); CJJ14.PiBas/PiPack additionally by the SMT engine (Repr). NOT decided (assumed A2/A4): that such outputs do not contain a keyword by chance. Bounded stand-in: substring absence and ciphertext-block freshness over all nine schemes"
-PARTIAL["C10"] = "proved for all inputs: Service.handle_upload_config / handle_upload_encrypted_database / handle_search_token / close_service against a ghost disk and message trace (exact guards, effects, frame, invariant mem.state == disk.state, refused requests change nothing and reply ok=False); trusted: FileManager functions (D1 model), lazy loaders, Service.__init__; bounded stand-in: message histories against the 3-state model on the real connection handler"
-PARTIAL["C11"] = "proved for all inputs: the ten ClientServiceState flag helpers (set/clear/test exactly one bit) and the server-state resynchronisation (touches only the two upload flags); bounded stand-in: client operation histories against the 5-flag reference model with a live loopback server, key write-once, rejected configurations"
+PARTIAL["C10"] = "proved for all inputs: the loader Service.__init__ reports exactly the recorded state in the init echo and changes nothing on disk; Service.handle_upload_config / handle_upload_encrypted_database / handle_search_token / close_service against a ghost disk and message trace (exact guards, effects, frame, invariant mem.state == disk.state, refused requests change nothing and reply ok=False); trusted: FileManager functions (D1 model), lazy loaders; bounded stand-in: message histories against the 3-state model on the real connection handler"
+PARTIAL["C11"] = "proved for all inputs: the ten ClientServiceState flag helpers (set/clear/test exactly one bit), the server-state resynchronisation (touches only the two upload flags), and the synchronous client handlers handle_create_key / handle_encrypt_database / handle_upload_config_echo / handle_upload_encrypted_database_echo over a ghost client disk: exact prerequisite guards, a refused operation changes neither the persisted state nor any file, exactly one flag changes on success and the state record is rewritten, the key file is written only where none existed and no other handler touches it; trusted: client FileManager functions (D1 model), lazy loaders, the scheme calls; bounded stand-in: client operation histories against the 5-flag reference model with a live loopback server (including the asynchronous upload / search operations and handle_create_config), key write-once on the real files, rejected configurations"
 PARTIAL["C13"] = "proved for all inputs: the server handlers keep mem.state == recorded state and write config before the state record (contracts over the ghost disk); the client resynchronisation recovers both upload flags from the init echo; bounded stand-in: every file-system mutation of the seven persisting steps, kill before/after, restart, finish the workflow (in-process kill simulation)"
 PARTIAL["C09"] = "proved for all inputs: server handlers store exactly the received bytes and report/guard by the recorded state; client resynchronisation; bounded stand-in: the documented workflow over loopback websockets for all nine schemes with client re-creation and server restarts; the end-to-end composition lemma is not mechanised"
 PARTIAL["C19"] = "proved for all array lengths, item sizes, chunk sizes and indices over the ghost file system (D2): index -> (file, offset) mapping and lazy file cache, int reads/writes with negative indices against the abstract view (a list of left-zero-padded items; unwritten regions read as zeros), slice reads with any start/stop/step, iteration, element deletion and clear (zero fill), exact exception conditions with no effect on any file, create/reopen through the meta file, typestate closed => every operation raises ValueError, only the array's own chunk files are ever created or changed, client lemma write->close->reopen; bounded stand-in only: slice assignment with rollback, slice deletion, membership, from_list, release, and mixed operation histories against a list model"
